@@ -132,6 +132,10 @@ def do(kind, obj, op):
         obj.reset()
     elif o == 'sort':
         obj.sort()
+    elif o == 'sortrev':
+        obj.sort(reverse=True)
+    elif o == 'sortparity':
+        obj.sort(key=lambda x: int(x) % 2, reverse=True)
     elif o == 'reverse':
         obj.reverse()
     elif o == 'len':
@@ -205,7 +209,7 @@ def alphabet(kind):
         ops = [('set', i, 1) for i in (-1, 0, 1, 2, 3)] + [('setitem', i, 2) for i in (0, 1, 2)]
         ops += [('setbad', 0, 0), ('setbadobj', 0, 0), ('appendbad', 0, 0)]
         ops += [('append', 0, 1), ('append', 0, 2), ('extend', 0, 1), ('clear', 0, 0), ('reset', 0, 0), ('sort', 0, 0),
-                ('reverse', 0, 0), ('len', 0, 0)]
+                ('reverse', 0, 0), ('len', 0, 0), ('sortrev', 0, 0), ('sortparity', 0, 0), ('append', 0, 3), ('append', 0, 4)]
         ops += [('getitem', i, 0) for i in (-1, 0, 1, 2)] + [('peek', i, 0) for i in (0, 1, 2)]
         ops += [('contains', 0, 1), ('count', 0, 1), ('index', 0, 2), ('iter', 0, 0), ('prettyPrint', 0, 0), ('eq', 0, 0),
                 ('encode', 0, 0), ('clone', 0, 0), ('cloneschema', 0, 0)]
@@ -351,7 +355,7 @@ def run(ctx):
             ctx.keys.add((kind,) + tuple(o for o, _, _ in h))
         for t in (traces[1234], traces[-5]):
             ctx.sample({'container': t['kind'], 'events': [{k: e[k] for k in ('o', 'i', 'v', 'res', 'ret', 'isv', 'len', 'el')} for e in t['ev']]})
-    ctx.rule = ('all operation sequences of length 3 over the public API alphabet of SEQUENCE OF (43 ops incl. slice reads and slice '
+    ctx.rule = ('all operation sequences of length 3 over the public API alphabet of SEQUENCE OF (47 ops incl. reversed and keyed stable sorts, slice reads and slice '
                 'assignments), CHOICE (28), SEQUENCE (31) and SET (43, incl. tag-addressed set/get/peek) + random longer ones; after every call the object is projected (isValue, len, members, DER) '
                 'and compared with the list/dict/at-most-one machines of spec/Container.tla by spec/Trace_Container.tla; '
                 'plus arithmetic/conversion/comparison probes on valueless scalars of 13 types')
